@@ -10,6 +10,7 @@ package main
 
 import (
 	"bytes"
+	"math/big"
 	"fmt"
 	"reflect"
 	"runtime"
@@ -162,6 +163,29 @@ func genConcJobs(rng *Rng, cfg *configuration.Configuration) []concJob {
 				return okOrErr(dumpValue(x), err)
 			}})
 		}
+	}
+	// numeric conversions: every event form into every numeric destination (the package-level
+	// singleton builders and the conversion helpers are shared by all sessions)
+	for j := 0; j < 4; j++ {
+		g := NewGen(rng, GenCfg{})
+		src := numericSource(rng, g)
+		if j == 0 {
+			// an integer above 2^64 that is exactly a float: reaches the float builders as a big.Int
+			v := new(big.Int).Lsh(big.NewInt(int64(1+rng.Intn(1000))), uint(64+rng.Intn(40)))
+			src = Event{K: "bi", Big: v}
+		}
+		doc, err := cbeEncode([]Event{{K: "bd"}, {K: "v"}, src, {K: "ed"}}, cfg)
+		if err != nil {
+			continue
+		}
+		d := convDests[rng.Intn(len(convDests))]
+		if j == 0 {
+			d = convDests[10+rng.Intn(2)] // float32 / float64
+		}
+		jobs = append(jobs, concJob{"convert " + src.Text() + " -> " + d.name, func(env *concEnv) string {
+			x, err := env.cbeU.UnmarshalFromDocument(doc, d.template)
+			return okOrErr(dumpValue(x), err)
+		}})
 	}
 	// event level: separate encoders / decoders / validators per goroutine
 	for j := 0; j < 2; j++ {
